@@ -31,8 +31,8 @@ pub trait Check: Sync {
     /// (units, executions per unit).
     fn budget(&self, tier: Tier) -> (u64, usize) {
         match tier {
-            Tier::Quick => (640, 60),
-            Tier::Thorough => (6400, 60),
+            Tier::Quick => (1600, 300),
+            Tier::Thorough => (8000, 300),
         }
     }
 }
@@ -90,6 +90,119 @@ fn run_one(check: &dyn Check, cli: &Cli, keys: &Keys, i: u64, iters: usize, keep
     UnitRun { index: i, seed, kind, params, out }
 }
 
+fn unit_to_json(u: &UnitRun) -> Value {
+    json!({
+        "index": u.index,
+        "seed": u.seed,
+        "kind": u.kind.name(),
+        "params": u.params,
+        // compact: 16 hex (schedule hash) + 16 hex (log hash) + n|t + 6 hex (steps)
+        "execs": u.out.execs.iter().map(|e| format!("{:016x}{:016x}{}{:06x}", e.sched_hash, e.log_hash, if e.nontrivial { 't' } else { 'n' }, e.steps.min(0xff_ffff))).collect::<String>(),
+        "counters": u.out.counters,
+        "points": u.out.points,
+        "sample": u.out.sample,
+        "failures": u.out.failures.iter().map(|f| json!({
+            "class": f.found.class, "sig": f.found.sig, "detail": f.found.detail,
+            "exec_index": f.exec_index, "schedule": f.schedule, "log": f.log,
+        })).collect::<Vec<_>>(),
+    })
+}
+
+fn unit_from_json(v: &Value) -> Option<UnitRun> {
+    let strs = |x: &Value| -> Vec<String> { x.as_array().map(|a| a.iter().filter_map(|s| s.as_str().map(str::to_string)).collect()).unwrap_or_default() };
+    let mut out = UnitOutcome::default();
+    let ex = v["execs"].as_str()?.as_bytes();
+    if ex.len() % 39 != 0 {
+        return None;
+    }
+    for c in ex.chunks(39) {
+        let c = std::str::from_utf8(c).ok()?;
+        out.execs.push(sim::ExecRecord {
+            sched_hash: u64::from_str_radix(&c[0..16], 16).ok()?,
+            log_hash: u64::from_str_radix(&c[16..32], 16).ok()?,
+            nontrivial: &c[32..33] == "t",
+            steps: u64::from_str_radix(&c[33..39], 16).ok()?,
+        });
+    }
+    for (k, n) in v["counters"].as_object()? {
+        out.counters.insert(k.clone(), n.as_u64()?);
+    }
+    out.points = v["points"].as_u64()?;
+    out.sample = strs(&v["sample"]);
+    for f in v["failures"].as_array()? {
+        out.failures.push(Failure {
+            found: sim::Found {
+                class: f["class"].as_str()?.to_string(),
+                sig: f["sig"].as_str()?.to_string(),
+                detail: f["detail"].as_str()?.to_string(),
+            },
+            exec_index: f["exec_index"].as_u64()?,
+            schedule: f["schedule"].as_str()?.to_string(),
+            log: strs(&f["log"]),
+        });
+    }
+    Some(UnitRun {
+        index: v["index"].as_u64()?,
+        seed: v["seed"].as_u64()?,
+        kind: SchedKind::parse(v["kind"].as_str()?)?,
+        params: v["params"].clone(),
+        out,
+    })
+}
+
+/// Runs units `0..n`. With more than one job the units are dealt to worker
+/// PROCESSES (`--worker k/W`), not threads: every execution maps and unmaps
+/// shared memory and coroutine stacks, and threads of one process serialise
+/// on the address-space lock. Results come back as one JSON line per unit
+/// and are put in index order, so nothing depends on timing.
+fn run_units(check: &dyn Check, cli: &Cli, keys: &Keys, n: u64, iters: usize) -> Vec<UnitRun> {
+    let workers = (cli.jobs as u64).min(n).max(1);
+    if workers <= 1 {
+        return (0..n).map(|i| run_one(check, cli, keys, i, iters, false)).collect();
+    }
+    let exe = std::env::current_exe().unwrap_or_else(|e| vcommon::harness_error(&format!("current_exe: {e}")));
+    let mut children = Vec::new();
+    for k in 0..workers {
+        let mut cmd = std::process::Command::new(&exe);
+        cmd.args(["--property", check.id(), "--tier", cli.tier.as_str(), "--seed", &format!("{:#x}", cli.seed)])
+            .args(["--jobs", "1", "--units", &n.to_string(), "--iters", &iters.to_string()])
+            .args(["--worker", &format!("{k}/{workers}")])
+            .env_remove("SHUTTLE_RANDOM_SEED")
+            .stdout(std::process::Stdio::piped())
+            .stderr(std::process::Stdio::null());
+        if cli.has_flag("fault-free") {
+            cmd.arg("--fault-free");
+        }
+        children.push(cmd.spawn().unwrap_or_else(|e| vcommon::harness_error(&format!("cannot spawn worker: {e}"))));
+    }
+    let mut runs: Vec<UnitRun> = Vec::new();
+    let outputs: Vec<std::process::Output> = std::thread::scope(|s| {
+        let hs: Vec<_> = children.into_iter().map(|c| s.spawn(move || c.wait_with_output())).collect();
+        hs.into_iter()
+            .map(|h| match h.join() {
+                Ok(Ok(o)) => o,
+                _ => vcommon::harness_error("worker process could not be collected"),
+            })
+            .collect()
+    });
+    for o in outputs {
+        if !o.status.success() {
+            vcommon::harness_error(&format!("worker process failed ({:?})", o.status.code()));
+        }
+        for line in String::from_utf8_lossy(&o.stdout).lines() {
+            if let Some(j) = line.strip_prefix("UNITJSON ") {
+                let v: Value = serde_json::from_str(j).unwrap_or_else(|e| vcommon::harness_error(&format!("bad worker output: {e}")));
+                runs.push(unit_from_json(&v).unwrap_or_else(|| vcommon::harness_error("bad worker unit record")));
+            }
+        }
+    }
+    runs.sort_by_key(|r| r.index);
+    if runs.len() as u64 != n || runs.iter().enumerate().any(|(i, r)| r.index != i as u64) {
+        vcommon::harness_error(&format!("workers returned {} of {} units", runs.len(), n));
+    }
+    runs
+}
+
 fn unit_hash(u: &UnitRun) -> u64 {
     let mut s = String::new();
     for e in &u.out.execs {
@@ -126,9 +239,21 @@ pub fn run(check: &dyn Check, cli: &Cli) -> i32 {
         iters = n as usize;
     }
 
+    // Worker process: run my share of the units, one JSON line each.
+    if let Some(w) = cli.extra.get("worker") {
+        let (k, of) = w.split_once('/').and_then(|(a, b)| Some((a.parse::<u64>().ok()?, b.parse::<u64>().ok()?))).unwrap_or_else(|| vcommon::harness_error("bad --worker"));
+        let mut i = k;
+        while i < units {
+            let r = run_one(check, cli, &keys, i, iters, false);
+            println!("UNITJSON {}", unit_to_json(&r));
+            i += of.max(1);
+        }
+        return 0;
+    }
+
     // Child mode of the determinism audit: print per-unit hashes only.
     if let Some(n) = extra_u64(cli, "hash-units") {
-        let runs = vcommon::parallel_map(n, cli.jobs, |i| run_one(check, cli, &keys, i, iters, false));
+        let runs = run_units(check, cli, &keys, n, iters);
         for r in &runs {
             println!("UNIT {} {:016x} execs={}", r.index, unit_hash(r), r.out.execs.len());
         }
@@ -136,13 +261,13 @@ pub fn run(check: &dyn Check, cli: &Cli) -> i32 {
     }
 
     let mut ev = Evidence::new(cli, "exploration");
-    let runs = vcommon::parallel_map(units, cli.jobs, |i| run_one(check, cli, &keys, i, iters, false));
+    let runs = run_units(check, cli, &keys, units, iters);
 
     // ---- aggregate
     let mut sched_hashes = BTreeSet::new();
     let mut nontrivial_hist = BTreeSet::new();
     let mut all_hist = BTreeSet::new();
-    let mut counters: BTreeMap<&'static str, u64> = BTreeMap::new();
+    let mut counters: BTreeMap<String, u64> = BTreeMap::new();
     let mut by_kind: BTreeMap<String, u64> = BTreeMap::new();
     let (mut execs, mut steps, mut points, mut nontrivial_total) = (0u64, 0u64, 0u64, 0u64);
     for r in &runs {
@@ -159,7 +284,7 @@ pub fn run(check: &dyn Check, cli: &Cli) -> i32 {
         }
         points += r.out.points;
         for (k, v) in &r.out.counters {
-            *counters.entry(k).or_insert(0) += v;
+            *counters.entry(k.clone()).or_insert(0) += v;
         }
     }
     ev.evaluations = execs;
@@ -170,9 +295,9 @@ pub fn run(check: &dyn Check, cli: &Cli) -> i32 {
     let mut probes = serde_json::Map::new();
     for (k, v) in &counters {
         if k.starts_with("fault.") || k.starts_with("family.") {
-            faults.insert((*k).to_string(), json!(v));
+            faults.insert(k.clone(), json!(v));
         } else {
-            probes.insert((*k).to_string(), json!(v));
+            probes.insert(k.clone(), json!(v));
         }
     }
     ev.set("faults_fired", Value::Object(faults));
@@ -255,14 +380,14 @@ fn process_failure(check: &dyn Check, cli: &Cli, keys: &Keys, r: &UnitRun, f: &F
     // 1. determinism: the same unit fails the same way again (this also
     //    collects the event log, which the search does not keep).
     let again = sim::run_unit(r.kind, r.seed, iters, true, check.workload(&r.params, Arc::clone(keys)));
-    let Some(f1) = find_same(&again, &raw_class).cloned() else {
+    let Some(f1) = again.failures.iter().find(|g| g.exec_index == f.exec_index).cloned() else {
         vcommon::harness_error(&format!(
-            "nondeterminism: unit {} (seed {:#x}) failed with {} but not when re-run",
-            r.index, r.seed, raw_class
+            "nondeterminism: unit {} (seed {:#x}) failed with {} in execution {} but not when re-run",
+            r.index, r.seed, raw_class, f.exec_index
         ));
     };
-    if f1.exec_index != f.exec_index || f1.schedule != f.schedule {
-        vcommon::harness_error(&format!("nondeterminism: unit {} failed at a different execution/schedule when re-run", r.index));
+    if f1.found.class != raw_class || f1.found.sig != f.found.sig || f1.schedule != f.schedule {
+        vcommon::harness_error(&format!("nondeterminism: unit {} execution {} failed differently when re-run", r.index, f.exec_index));
     }
 
     // 2. minimise: shrink the workload, re-search with the same seed.
